@@ -157,7 +157,18 @@ def run_case(cs, layout=None, cls=None, any_err=False, raw=False):
         f = P.build_frame(cs['f'], layout, cls=cls)
     if 's' in cs:
         s = P.build_series(cs['s'])
-    res = C.execute(lambda: _call(cs, f, s))
+    got = []
+
+    def _thunk():
+        got.append(_call(cs, f, s))
+        return got[0]
+    res = C.execute(_thunk)
+    if cls is sf.FrameGO and got and isinstance(got[0], sf.FrameGO) and got[0] is not f and got[0].columns.depth == 1:
+        # the result of a call on a grow-only Frame is grown: a functional update must have handed out a container of its own
+        try:
+            got[0]['__grown__'] = np.zeros(len(got[0].index), dtype=np.int64)
+        except Exception:
+            pass
     if f is not None and not _same_source(cs['f'], P.proj_frame(f)):
         return {'k': 'mutated', 'what': 'source frame changed by the call'}
     if s is not None and not _same_source(cs['s'], P.proj_series(s)):
